@@ -284,6 +284,24 @@ def run(ctx):
     check_receive_flushes(P, r9, tables)
 
 
+def flush_helpers(P, f):
+    """the static helpers of f's file through which the pending frame is written below: those that call
+    xcm_tp_socket_send and those that reach one by direct calls (the flush loop's body extracted into a helper).  The ops
+    of the table (send, receive, finish themselves) are not helpers."""
+    fl = {g for g in P.functions if g.file == f.file and g.static and any(True for _ in g.calls("xcm_tp_socket_send"))}
+    changed = True
+    while changed:
+        changed = False
+        for g in P.functions:
+            if g.file != f.file or not g.static or g in fl or g is f:
+                continue
+            if any((g.nodes[c].get("callee") or "") in {x.name for x in fl} for c in g.calls()):
+                fl.add(g)
+                changed = True
+    ops = {g for t in TP.ops_tables(P) for g in t.slots.values() if g is not None}
+    return {g for g in fl if g not in ops}
+
+
 def check_receive_flushes(P, rule, tables):
     """xcm_send() may answer 0 with the frame still in the library's buffer; xcm.h promises that it is re-attempted by
     every later xcm_finish(), xcm_send() and xcm_receive().  An application that sent a request and now only calls
@@ -296,7 +314,7 @@ def check_receive_flushes(P, rule, tables):
         if t.proto not in ("tcp", "tls"):
             continue
         f = t.slots["receive"]
-        flushers = {g for g in P.functions if g.file == f.file and g.static and any(True for _ in g.calls("xcm_tp_socket_send"))}
+        flushers = flush_helpers(P, f)
         if not flushers:
             raise Broken("receive-flushes: the flush helper of %s was not found" % f.name)
         n += 1
